@@ -878,3 +878,202 @@ Proof.
       * now rewrite Es.
       * intros x. rewrite Es. split; discriminate.
 Qed.
+
+Lemma linv_accept_done m g c :
+  LInv m g -> In c (keys (accepting m)) ->
+  LInv (fst (do_accept_done m c true)) (gstep (AcceptDone c true) (snd (do_accept_done m c true)) g).
+Proof.
+  intros [P O R ON F INB D DN AN AS AC SU] Hin.
+  destruct (keys_in_lookup _ _ Hin) as [[p b] Hl].
+  unfold do_accept_done. rewrite Hl. cbn [fst snd].
+  unfold gstep. cbn [flat_map app out_open out_dialneg out_cancel out_reject out_term out_rep].
+  rewrite !removes_nil.
+  assert (Hlk : forall x, lookup x (remove_first c (accepting m)) = if x =? c then None else lookup x (accepting m)).
+  { intros x. now apply lookup_remove_first. }
+  assert (Hk : forall x, In x (keys (remove_first c (accepting m))) <-> In x (keys (accepting m)) /\ x <> c).
+  { intros x. split.
+    - intros Hx. apply keys_in_lookup in Hx. destruct Hx as [v Hv]. rewrite Hlk in Hv.
+      destruct (x =? c) eqn:E; [discriminate|]. split; [eapply lookup_in_keys; exact Hv | lia].
+    - intros [Hx Hne]. apply keys_in_lookup in Hx. destruct Hx as [v Hv].
+      apply (lookup_in_keys x _ v). rewrite Hlk. assert (x =? c = false) as -> by lia. exact Hv. }
+  split; cbn [set_accepting pending accepting next_conn g_open g_neg g_att g_done g_super g_limrej g_inb g_rep];
+    try assumption.
+  - intros x Hx. rewrite Hk in Hx. cbn [In] in Hx.
+    assert (Hx' : owed g x \/ In x (keys (g_att g)) \/ In x (g_inb g) \/ In x (g_done g) \/
+                  In x (keys (accepting m)) \/ In x (g_super g)).
+    { destruct Hx as [H|[H|[H|[[<-|H]|[[H _]|H]]]]]; auto 10. }
+    now apply F.
+  - intros x Hx. destruct (INB _ Hx) as (H1 & H2 & H3). rewrite Hk. repeat split; auto.
+    + cbn [In]. intros [<-|H]; contradiction.
+    + intros [H _]. contradiction.
+  - intros x Hx. rewrite Hk. cbn [In] in Hx. destruct Hx as [<-|Hx].
+    + split; [exact (AS _ Hin)|]. intros [_ Hne]. congruence.
+    + destruct (D _ Hx) as [H1 H2]. split; [assumption|]. intros [H _]. contradiction.
+  - constructor; [|assumption]. intros Hd. destruct (D _ Hd) as [_ H2]. contradiction.
+  - now apply nodup_remove_first.
+  - intros x Hx. rewrite Hk in Hx. destruct Hx as [Hx _]. exact (AS _ Hx).
+  - intros x q Hx. rewrite Hk. cbn [In]. destruct (AC _ _ Hx) as [H|[H|[H|[H|H]]]]; auto.
+    destruct (N.eq_dec x c) as [->|Hne]; [right; left; now left | do 4 right; auto].
+  - intros x q Hx Hat. cbn [In]. destruct (SU _ _ Hx Hat) as [H|(c' & b' & H)]; [left; now right|].
+    destruct (N.eq_dec c' c) as [->|Hne].
+    + left. left. congruence.
+    + right. exists c', b'. rewrite Hlk. assert (c' =? c = false) as -> by lia. exact H.
+Qed.
+
+Lemma alloc_of_ret n : alloc_of [Ret (RET_ALLOC + n)] = [n].
+Proof.
+  unfold alloc_of. cbn [flat_map app]. assert (RET_ALLOC <=? RET_ALLOC + n = true) as -> by lia.
+  cbn [app]. f_equal. lia.
+Qed.
+
+Lemma linv_alloc m g :
+  LInv m g -> LInv (bump_conn m) (gstep AllocConn [Ret (RET_ALLOC + next_conn m)] g).
+Proof.
+  intros [P O R ON F INB D DN AN AS AC SU].
+  unfold gstep. rewrite alloc_of_ret.
+  cbn [flat_map app out_open out_dialneg out_cancel out_reject out_term out_rep]. rewrite !removes_nil.
+  assert (Hfresh : forall x, (owed g x \/ In x (keys (g_att g)) \/ In x (g_inb g) \/ In x (g_done g) \/
+                              In x (keys (accepting m)) \/ In x (g_super g)) -> x <> next_conn m).
+  { intros x Hx. specialize (F x Hx). lia. }
+  split; cbn [bump_conn pending accepting next_conn g_open g_neg g_att g_done g_super g_limrej g_inb g_rep];
+    try assumption.
+  - intros x Hx. cbn [In] in Hx.
+    assert (Hx' : x = next_conn m \/ (owed g x \/ In x (keys (g_att g)) \/ In x (g_inb g) \/ In x (g_done g) \/
+                  In x (keys (accepting m)) \/ In x (g_super g))).
+    { destruct Hx as [H|[H|[[<-|H]|H]]]; auto 10. }
+    destruct Hx' as [->|Hx']; [lia|]. specialize (F _ Hx'). lia.
+  - intros x Hx. cbn [In] in Hx. destruct Hx as [<-|Hx]; [|auto].
+    repeat split; intros H; apply (Hfresh (next_conn m)); auto 10.
+Qed.
+
+Lemma linv_init : LInv init g0.
+Proof.
+  split; cbn; try (intros; discriminate); try (intros; tauto); try constructor.
+  - intros c [H|H]; destruct H.
+  - intros c H. unfold owed in H. cbn in H. intuition.
+Qed.
+
+Theorem linv_step L m g e :
+  LInv m g -> feas m g e -> LInv (fst (step L m e)) (gstep e (snd (step L m e)) g).
+Proof.
+  intros I He. destruct e as [p f|p f|p|c pa|c f|c pa|p c lst f|c|c ok|p c|]; cbn [step feas] in *.
+  - subst f. now apply linv_dial_peer.
+  - subst f. now apply linv_dial_addr.
+  - cbn [fst snd]. rewrite gstep_quiet_cmd; [|apply quiet_nil|exact Logic.I].
+    eapply linv_frame; [| | | |exact I]; reflexivity.
+  - destruct He as [H1 H2]. now apply linv_dial_failure.
+  - destruct He as [-> H]. now apply linv_opened.
+  - destruct He as [H1 H2]. now apply linv_open_failure.
+  - destruct He as [-> H]. destruct lst.
+    + now apply linv_established_listener.
+    + destruct H as [H1 H2]. now apply linv_established_dialer.
+  - destruct (limit_reached (max_in L) (ins m)); cbn [fst snd];
+      (rewrite gstep_quiet_cmd; [exact I| |exact Logic.I]);
+      unfold quiet, alloc_of; cbn; repeat split.
+  - destruct He as [-> H]. now apply linv_accept_done.
+  - pose proof (linv_closed m g p c I) as K. destruct (do_closed m p c) as [m1 rep]. cbn [fst snd] in *.
+    rewrite gstep_quiet_cmd; [exact K| |exact Logic.I].
+    destruct rep; unfold quiet, alloc_of; cbn; repeat split.
+  - cbn [fst snd]. now apply linv_alloc.
+Qed.
+
+(* ---------- histories ---------- *)
+Fixpoint lrun (L : limits) (m : mgr) (g : ghost) (es : list ev) : mgr * ghost :=
+  match es with
+  | [] => (m, g)
+  | e :: t => lrun L (fst (step L m e)) (gstep e (snd (step L m e)) g) t
+  end.
+
+(* a history the transport contract allows *)
+Fixpoint feasible (L : limits) (m : mgr) (g : ghost) (es : list ev) : Prop :=
+  match es with
+  | [] => True
+  | e :: t => feas m g e /\ feasible L (fst (step L m e)) (gstep e (snd (step L m e)) g) t
+  end.
+
+Theorem linv_run L es : forall m g,
+  LInv m g -> feasible L m g es -> LInv (fst (lrun L m g es)) (snd (lrun L m g es)).
+Proof.
+  induction es as [|e t IH]; intros m g I Hf; cbn [lrun fst snd]; [exact I|].
+  destruct Hf as [H1 H2]. apply IH; [now apply linv_step | exact H2].
+Qed.
+
+(* all terminal outputs of a run, most recent first *)
+Fixpoint terminals (L : limits) (m : mgr) (es : list ev) : list conn :=
+  match es with
+  | [] => []
+  | e :: t => terminals L (fst (step L m e)) t ++ flat_map out_term (snd (step L m e))
+  end.
+
+Lemma done_is_terminals L es : forall m g,
+  g_done (snd (lrun L m g es)) = terminals L m es ++ g_done g.
+Proof.
+  induction es as [|e t IH]; intros m g; cbn [lrun terminals snd]; [reflexivity|].
+  rewrite IH. unfold gstep. cbn [g_done]. now rewrite app_assoc.
+Qed.
+
+(* T1 — never two terminal outputs (connection reported / failure reported) naming the same
+   connection id, on any feasible history *)
+Theorem at_most_one_outcome L es :
+  feasible L init g0 es -> NoDup (terminals L init es).
+Proof.
+  intros Hf. pose proof (linv_run L es init g0 linv_init Hf) as I.
+  destruct I as [_ _ _ _ _ _ _ DN _ _ _ _]. rewrite done_is_terminals in DN.
+  cbn [g0 g_done] in DN. now rewrite app_nil_r in DN.
+Qed.
+
+Definition quiescent (m : mgr) (g : ghost) : Prop :=
+  g_open g = [] /\ g_neg g = [] /\ accepting m = [].
+
+(* T2 — never silence: once the transport owes nothing and no accept future is pending, every
+   accepted dial attempt has been named by a terminal output, or was superseded by a reported
+   connection with the same peer, or belongs to the recorded finding (rejected by the limit) *)
+Theorem no_silence L es :
+  feasible L init g0 es ->
+  let '(m, g) := lrun L init g0 es in
+  quiescent m g ->
+  forall c p, lookup c (g_att g) = Some p ->
+    In c (g_done g) \/ (In c (g_super g) /\ In p (g_rep g)) \/ In c (g_limrej g).
+Proof.
+  intros Hf. pose proof (linv_run L es init g0 linv_init Hf) as I.
+  destruct (lrun L init g0 es) as [m g]. cbn [fst snd] in I.
+  intros (Ho & Hn & Ha) c p Hat.
+  destruct I as [P O R ON F INB D DN AN AS AC SU].
+  destruct (AC _ _ Hat) as [H|[H|[H|[H|H]]]].
+  - exfalso. unfold owed in H. rewrite Ho, Hn in H. destruct H as [[]|[]].
+  - now left.
+  - right. left. split; [assumption|]. destruct (SU _ _ H Hat) as [Hr|(c' & b & Hl)]; [assumption|].
+    rewrite Ha in Hl. discriminate.
+  - right. now right.
+  - rewrite Ha in H. destruct H.
+Qed.
+
+(* T3 — no wedged peer: at quiescence every peer is connected without dial record or fully
+   disconnected, hence (settled_can_dial, redial_attempted) can be dialled again and the dial is
+   really attempted *)
+Theorem no_wedge L es :
+  feasible L init g0 es ->
+  let '(m, g) := lrun L init g0 es in
+  quiescent m g -> forall p, settled (state_of m p).
+Proof.
+  intros Hf. pose proof (linv_run L es init g0 linv_init Hf) as I.
+  destruct (lrun L init g0 es) as [m g]. cbn [fst snd] in I.
+  intros (Ho & Hn & Ha) p. unfold settled.
+  destruct (dial_record (state_of m p)) as [c|] eqn:E; [|reflexivity].
+  exfalso. destruct I as [P O R ON F INB D DN AN AS AC SU].
+  specialize (R _ _ E). destruct (P _ _ R) as (H & _). unfold owed in H. rewrite Ho, Hn in H.
+  destruct H as [[]|[]].
+Qed.
+
+(* every pending attempt is owed an answer by the transport: nobody waits for nothing, at any
+   point of any feasible history (the invariant behind T3) *)
+Theorem pending_is_owed L es :
+  feasible L init g0 es ->
+  let '(m, g) := lrun L init g0 es in
+  forall p c, dial_record (state_of m p) = Some c -> owed g c.
+Proof.
+  intros Hf. pose proof (linv_run L es init g0 linv_init Hf) as I.
+  destruct (lrun L init g0 es) as [m g]. cbn [fst snd] in I.
+  intros p c E. destruct I as [P O R ON F INB D DN AN AS AC SU].
+  specialize (R _ _ E). now destruct (P _ _ R).
+Qed.
